@@ -175,7 +175,7 @@ def draw_single_params(rng, spec: Spec, desc: dict, *, lazy: bool | None = None,
         p["robust"] = False
         p["regularizer"] = rng.choice(["l1", "l1", "l0"])
     if spec.hilbert:
-        p["padding"] = rng.choice(["exp", "exp", None])
+        p["padding"] = rng.choice(["exp", None])
         p["decay_factor"] = rng.choice([0.2, 0.1])
     if rng.random() < 0.1:
         p["solver_kwargs"] = {}
